@@ -1,10 +1,11 @@
 #!/bin/bash
 # usage: tools/runall.sh <tier> <seed> [checks...]   - runs checks, prints one line per check (no evidence written)
+here="$(cd "$(dirname "${BASH_SOURCE[0]}")/.." && pwd)"
 tier="$1"; seed="$2"; shift 2
 checks="${@:-C01 C02 C03 C04 C05 C06 C07 C08 C09 C10 C11 C12 C13 C14 C15 C16 C17 C18 C19 C20}"
 for c in $checks; do
   t0=$(date +%s)
-  out=$(cd /verif && VERIF_SEED=$seed VERIF_NO_EVIDENCE=${NOEV:-1} ./vf $c $tier 2>&1); rc=$?
+  out=$(cd "$here" && VERIF_SEED=$seed VERIF_NO_EVIDENCE=${NOEV:-1} ./vf $c $tier 2>&1); rc=$?
   t1=$(date +%s)
   echo "$c seed=$seed tier=$tier rc=$rc $((t1-t0))s $(echo "$out" | grep -E '^\[C..\] tier' | sed 's/.*cases=/cases=/' | cut -c1-90) $(echo "$out" | grep -E 'VIOLATION|INCONCLUSIVE' | head -2 | tr '\n' ' ' | cut -c1-260)"
 done
